@@ -32,6 +32,10 @@ Gainers == {a \in Accts : feebal'[a] > feebal[a]}
 Judge(k) ==
   IsStep(k) =>
   LET ev == ln(k).ev IN
+  (* C04 for a destination behind a TSS client: a successful send takes the next sequence and leaves its commitment, *)
+  (* the hash of the emitted packet bytes - whatever the type of the destination's client                            *)
+  /\ Report(k, "C04.TssSendCommits", (ev = "Send" /\ OK(k)) => (ln(k).st.sent = sent + 1 /\ (sent + 1) \in SeqSet(ln(k).st.commits)))
+  /\ Report(k, "C04.TssCommitIsHash", ln(k).st.commitok)
   (* updates and receives only from an account registered for exactly that chain (registry before the step) *)
   /\ Report(k, "C06.OnlyRegistered", (ev \in {"Update", "Recv"} /\ OK(k)) => A(k).chain \in reg[A(k).signer])
   (* a TSS-secured counterparty: only the TSS account, for updates, receives and acknowledgements *)
